@@ -103,6 +103,17 @@ impl WriteHandler {
     pub fn write_single_register(&self, index: u16, value: u16, database: &mut crate::Database) -> (r: Option<WriteResult>)
         ensures self.may_write_single_register(index, value, r),
     { unimplemented!() }
+    // the multiple-write callbacks receive the start address and an iterator over exactly the decoded values of the request
+    pub uninterp spec fn may_write_multiple_coils(&self, start: u16, it: crate::rodbus::BitIterator<'_>, r: Option<WriteResult>) -> bool;
+    pub uninterp spec fn may_write_multiple_registers(&self, start: u16, it: crate::rodbus::RegisterIterator<'_>, r: Option<WriteResult>) -> bool;
+    #[verifier::external_body]
+    pub fn write_multiple_coils(&self, start: u16, it: &mut crate::BitValueIterator<'_>, database: &mut crate::Database) -> (r: Option<WriteResult>)
+        ensures self.may_write_multiple_coils(start, old(it).inner, r),
+    { unimplemented!() }
+    #[verifier::external_body]
+    pub fn write_multiple_registers(&self, start: u16, it: &mut crate::RegisterValueIterator<'_>, database: &mut crate::Database) -> (r: Option<WriteResult>)
+        ensures self.may_write_multiple_registers(start, old(it).inner, r),
+    { unimplemented!() }
 }
 //@trusted ffi::WriteHandler callbacks: C function pointers, opaque (any WriteResult or None when the callback is not set)
 pub struct AuthorizationHandler { pub x: u8 }
